@@ -96,6 +96,14 @@ def plans(tree, tier):
     for k in ("reloc", "stay", "elim"):
         if len(leaves) > 1 or k == "elim":
             out.append((f"leaves-{k}", {p: k for p in leaves}))
+    # a staying annotation on a leaf and ANOTHER annotation put on the inner node above it afterwards (re-annotation of a non-leaf)
+    seen = set()
+    for p in leaves:
+        q = p[:-1]
+        if q and q not in seen and not is_leaf(node_at(tree, q)):
+            seen.add(q)
+            out.append((f"stay@{'.'.join(map(str, p))}+elim@{'.'.join(map(str, q))}", {p: "stay", q: "elim"}))
+            out.append((f"stay@{'.'.join(map(str, p))}+reloc@{'.'.join(map(str, q))}", {p: "stay", q: "reloc"}))
     if len(leaves) > 1:
         kinds = ("stay", "reloc", "elim")
         out.append(("leaves-mixed", {p: kinds[i % 3] for i, p in enumerate(leaves)}))
